@@ -14,7 +14,7 @@ import dlib  # noqa: E402
 logging.disable(logging.CRITICAL)
 
 from traits.api import (  # noqa: E402
-    Any, Constant, Disallow, Event, HasPrivateTraits, HasStrictTraits, HasTraits, Int, Python,
+    Any, CInt, Constant, Disallow, Event, HasPrivateTraits, HasStrictTraits, HasTraits, Int, Python,
     ReadOnly, Str, Undefined,
 )
 
@@ -27,7 +27,7 @@ def val(a):
     if 0 <= a < 100:
         return a
     if 100 <= a < 200:
-        return "s%d" % (a - 100)
+        return str(a - 100)
     if a == 200:
         return None
     if a == 201:
@@ -38,8 +38,8 @@ def val(a):
 def atom(v):
     if type(v) is int and 0 <= v < 100:
         return v
-    if type(v) is str and v[:1] == "s" and v[1:].isdigit() and int(v[1:]) < 100:
-        return 100 + int(v[1:])
+    if type(v) is str and v.isdigit() and int(v) < 100 and str(int(v)) == v:
+        return 100 + int(v)
     if v is None:
         return 200
     if v is Undefined:
@@ -62,7 +62,7 @@ def mk(pol):
     if k == "Event":
         return Event()
     if k == "Typed":
-        return {"VInt": Int, "VStr": Str}[pol[1]](val(pol[2]))
+        return {"VInt": Int, "VStr": Str, "VCInt": CInt}[pol[1]](val(pol[2]))
     raise ValueError(pol)
 
 
@@ -134,6 +134,8 @@ def run_case(case):
     if k < len(ROOTS):
         raise ValueError("the instance must be of a freshly created class")
     hist += execute(classes[k](), main)
+    # type(obj).__mro__ as class indices (CHasTraits / object dropped): compared with the law's C3
+    hist[0]["mro"] = [classes.index(c) for c in classes[k].__mro__ if c in classes]
     return hist
 
 
